@@ -25,11 +25,13 @@
      KF_FlushOutside   the reply to pipelined message data is awaited outside the data Timeout  (D12, fixed df614a7)
      KF_RsetBypass     RSET does not clear LmtpClient's list of accepted recipients (seeded change C19b-m2): after a
                        refused DATA the next message on the connection waits for replies that never come
+     KF_RcptBeforeMail _check_replies looks at the RCPT replies before the MAIL reply (seeded change C06c-m2): with
+                       PIPELINING a refused sender is reported with the class of the 503 given to the RCPTs
      KF_FirstRcptClass when every recipient is refused the whole message fails with the class of the FIRST refusal,
                        also for recipients refused with the other class                        (D28) *)
 EXTENDS Integers, Sequences, FiniteSets, TLC
 
-CONSTANTS NRcpt, Lmtp, Pipelining, NMsg, KF_FlushOutside, KF_FirstRcptClass, KF_RsetBypass
+CONSTANTS NRcpt, Lmtp, Pipelining, NMsg, KF_FlushOutside, KF_FirstRcptClass, KF_RsetBypass, KF_RcptBeforeMail
 
 Rcpts == 1..NRcpt
 None == "none"
@@ -185,8 +187,10 @@ Check ==
   /\ pc = "check"
   /\ LET m == rep[<<"mail", 0>>]
          d == rep[<<"data", 0>>]
-         exc == IF IsErr(m) THEN Cls(m)
-                ELSE IF AllRefused THEN (IF KF_FirstRcptClass \/ Cardinality(RefusedClasses) = 1 THEN Cls(rep[<<"rcpt", 1>>]) ELSE "mixed")
+         refused == IF KF_FirstRcptClass \/ Cardinality(RefusedClasses) = 1 THEN Cls(rep[<<"rcpt", 1>>]) ELSE "mixed"
+         exc == IF KF_RcptBeforeMail /\ AllRefused THEN refused
+                ELSE IF IsErr(m) THEN Cls(m)
+                ELSE IF AllRefused THEN refused
                 ELSE IF IsErr(d) THEN Cls(d) ELSE None
      IN IF exc = None THEN /\ pc' = "send_data" /\ UNCHANGED <<wait, after, queued, scope, inexc>>
         ELSE /\ inexc' = exc
